@@ -425,6 +425,11 @@ func runLCInBubble(t *testing.T, sc *LCScenario, ch sim.Chooser) []sim.Ev {
 				}
 			}
 			add("CloseEnd", "j", n, "err", errS(err), "panic", pmsg, "left", left)
+			// A keystore does not own its datastore: once Close has returned its owner may close the datastore.
+			// Later Close calls must not go back to it (with no operation ever started nothing else can).
+			if (sc.Comp == "keystore" || sc.Comp == "rkeystore") && sc.NOps == 0 {
+				_ = gds.Close()
+			}
 		}()
 	}
 	release := func(it *sim.Parked, fail bool) {
@@ -555,7 +560,11 @@ func runLCInBubble(t *testing.T, sc *LCScenario, ch sim.Chooser) []sim.Ev {
 			kept = append(kept, l)
 		}
 	}
-	add("Quiesce", "hang", hang, "pending", pend, "left", kept, "subsleft", h.OpenSubscriptions()-baseSubs)
+	dsAfterClose := 0
+	if (sc.Comp == "keystore" || sc.Comp == "rkeystore") && sc.NOps == 0 {
+		dsAfterClose = gds.AfterCloseCount()
+	}
+	add("Quiesce", "hang", hang, "pending", pend, "left", kept, "subsleft", h.OpenSubscriptions()-baseSubs, "dsafterclose", dsAfterClose)
 	for _, it := range gate.Pending() {
 		release(it, true)
 	}
